@@ -45,6 +45,8 @@ impl Lat {
             6 => { let h = 1.0f32 / 2048.0; for &y in &[700.5 - h, 700.5 + h, 700.5 - h / 2.0, 700.5 + 1.5 * h, 701.5 - h, 701.5 + 2.0 * h] { for &x in &[1000.0f32, 1001.5, 1003.0, 1004.5] { v.push((x, y)); } } },
             // the same near the origin (rows 2.5 and 3.5) with heights of 2^-20 px
             7 => { let h = 1.0f32 / 1048576.0; for &y in &[2.5 - h, 2.5 + h, 2.5 - h / 2.0, 2.5 + 1.5 * h, 3.5 - h, 3.5 + 2.0 * h] { for &x in &[0.0f32, 1.5, 3.0, 4.5] { v.push((x, y)); } } },
+            // large triangles with off-lattice (non-dyadic) vertices: edges stepped over hundreds of rows
+            8 => { let (xs, ys): (Vec<f32>, Vec<f32>) = if self.n == 0 { (vec![10.25, 120.5, 250.0, 300.0], vec![10.25, 60.0, 300.0]) } else { (vec![10.25, 120.5, 250.0, 300.0, 77.7, 199.9], vec![10.25, 60.0, 300.0, 155.3, 289.6]) }; for &y in &ys { for &x in &xs { v.push((x, y)); } } },
             _ => unreachable!(),
         }
         v
@@ -336,6 +338,7 @@ fn families(quick: bool) -> Vec<(String, Vec<(f32, f32)>, usize, bool)> {
     f.push((format!("half-px N=3 +1000/+700 offset 0.1"), Lat { kind: 4, n: 3 }.points(), 2, false));
     f.push(("flat slivers 2^-11 px high at y=700".into(), Lat { kind: 6, n: 0 }.points(), 0, false));
     f.push(("flat slivers 2^-20 px high at y=2.5".into(), Lat { kind: 7, n: 0 }.points(), 0, false));
+    f.push(("large off-lattice triangles (up to 300 px)".into(), Lat { kind: 8, n: if quick { 0 } else { 1 } }.points(), 0, false));
     f.push(("large triangles on {0,37.25,160.5,321}^2".into(), Lat { kind: 5, n: 0 }.points(), 0, false));
     f.push(("large triangles on {0,37.25,160.5,321}^2 offset 1/3".into(), Lat { kind: 5, n: 0 }.points(), 1, false));
     f.push((format!("half-px N={} nudged by -2..+1 ulp", if quick { 1 } else { 2 }), Lat { kind: 3, n: if quick { 1 } else { 2 } }.points(), 0, false));
